@@ -20,10 +20,8 @@ import (
 
 	"github.com/btcsuite/btcd/btcec/v2"
 	"github.com/btcsuite/btcd/btcec/v2/ecdsa"
-	"github.com/btcsuite/btcd/btcec/v2/schnorr"
 	"github.com/btcsuite/btcd/chaincfg/v2"
 	"github.com/btcsuite/btcd/chainhash/v2"
-	"github.com/btcsuite/btcd/txscript/v2"
 	"github.com/btcsuite/btcd/wire/v2"
 	"github.com/lightningnetwork/lnd/fn/v2"
 	"github.com/lightningnetwork/lnd/input"
@@ -61,7 +59,7 @@ type c20Msg struct {
 	scid lnwire.ShortChannelID
 	dir  int
 	ts   uint32
-	node [33]byte   // node announcements
+	node [33]byte    // node announcements
 	ids  [2][33]byte // channel announcements: NodeID1/2
 
 	// for authentic messages
@@ -1371,10 +1369,3 @@ func (u *c20Universe) semanticInvalids(t *rapid.T, c *c20Chan) []*c20Msg {
 
 	return out
 }
-
-// c20ScriptClass names the kind of an output script (labels only).
-func c20ScriptClass(s []byte) string {
-	return txscript.GetScriptClass(s).String()
-}
-
-var _ = schnorr.PubKeyBytesLen
